@@ -63,6 +63,9 @@ fn generate(seed: u64, tier: Tier) -> Scenario {
         };
         let mut sc = gen_history(&mut r, "C07", seed, &hc);
         sc.env.local_backend = local;
+        if seed % 3 == 0 && !local {
+            crate::scenario::sprinkle_legacy_tails(&mut r, &mut sc);
+        }
         sc.params = json!({"kind": "history"});
         sc
     } else {
